@@ -24,6 +24,9 @@ type simOpts struct {
 }
 
 func drawConfig(t *rapid.T, o simOpts) sim.Config {
+	if ev.Thorough() { // the thorough tier also explores larger committees, more heights and longer traces
+		o.MaxN, o.MaxHeight = 10, 4
+	}
 	n := rapid.IntRange(4, o.MaxN).Draw(t, "n")
 	wclass := rapid.IntRange(0, 4).Draw(t, "wclass")
 	ws := make([]uint64, n)
@@ -232,9 +235,14 @@ func sampleOf(w *sim.World) interface{} {
 }
 
 // runSimCase: one generated execution of engine S under the given options. Returns the world (with Viol set on violation).
-func runSimCase(t *rapid.T, o simOpts) *sim.World {
+func runSimCase(t *rapid.T, o simOpts) *sim.World { return runSimCaseWith(t, o, nil) }
+
+func runSimCaseWith(t *rapid.T, o simOpts, setup func(*sim.World)) *sim.World {
 	cfg := drawConfig(t, o)
 	w := sim.NewWorld(cfg)
+	if setup != nil {
+		setup(w)
+	}
 	for x := range ev.ExcludedTriggers(o.Focus) {
 		w.Adv.Disabled[x] = true
 	}
@@ -266,7 +274,11 @@ func runSimCase(t *rapid.T, o simOpts) *sim.World {
 			}
 		}
 	}
-	steps := rapid.IntRange(5, o.MaxSteps).Draw(t, "steps")
+	maxSteps := o.MaxSteps
+	if ev.Thorough() {
+		maxSteps *= 2
+	}
+	steps := rapid.IntRange(5, maxSteps).Draw(t, "steps")
 	for i := 0; i < steps && w.Viol == nil && !w.AllDone(); i++ {
 		w.Apply(drawAction(t, w, sw, o))
 	}
